@@ -218,13 +218,13 @@ class TRec(Ty):
         return self.dt
 
     def has(self, z, k):
-        return getattr(self.dt, 'has_' + _fld(k))(z)
+        return _acc(getattr(self.dt, 'has_' + _fld(k)), z)
 
     def get(self, z, k):
-        return getattr(self.dt, 'v_' + _fld(k))(z)
+        return _acc(getattr(self.dt, 'v_' + _fld(k)), z)
 
     def restz(self, z):
-        return self.dt.rest(z)
+        return _acc(self.dt.rest, z)
 
     def update(self, z, **kw):
         """functional update: kw maps accessor names ('has_x','v_x','rest') to new terms"""
